@@ -325,12 +325,20 @@ Section TakePull.
     - (* error *)
       destruct i_phase0 as (Htb & Hend & [[Hlt Hlow] | [Heq (v0 & rest & Hst & Hlow)]]).
       2: { exfalso. eapply top_sink_not_up; eassumption. }
-      destruct (step_in p c (IDn 0 (DE e)) Hlive Hdel eq_refl) as (Hc & Hs & Hm & Hd).
+      assert (Hh : handle o (IDn 0 (DE e)) (cst c) =
+                   ({| tk_taken := tk_taken (cst c); tk_tb := tk_tb (cst c); tk_end := true |}, [],
+                    ACall (CDn 0 (DE e)) TkDone)).
+      { cbn. now rewrite Hend. }
+      destruct (step_in p c (IDn 0 (DE e)) Hlive Hdel Hh) as (Hc & Hs & Hm & Hd).
       fin' Hc Hm Hs Hd.
     - (* completion *)
       destruct i_phase0 as (Htb & Hend & [[Hlt Hlow] | [Heq (v0 & rest & Hst & Hlow)]]).
       2: { exfalso. eapply top_sink_not_up; eassumption. }
-      destruct (step_in p c (IDn 0 DT) Hlive Hdel eq_refl) as (Hc & Hs & Hm & Hd).
+      assert (Hh : handle o (IDn 0 DT) (cst c) =
+                   ({| tk_taken := tk_taken (cst c); tk_tb := tk_tb (cst c); tk_end := true |}, [],
+                    ACall (CDn 0 DT) TkDone)).
+      { cbn. now rewrite Hend. }
+      destruct (step_in p c (IDn 0 DT) Hlive Hdel Hh) as (Hc & Hs & Hm & Hd).
       fin' Hc Hm Hs Hd.
   Qed.
 
